@@ -584,7 +584,7 @@ impl Property for C04 {
 		400
 	}
 	fn cases(&self, tier: Tier) -> u64 {
-		tier.pick(400_000, 8_000_000)
+		tier.pick(3_000_000, 30_000_000)
 	}
 
 	fn enumerations(&self, tier: Tier) -> Vec<Enumeration> {
